@@ -327,6 +327,8 @@ void spki_table_notify_diff(struct spki_table *new_table, struct spki_table *old
 	// Iterate new_table and try to delete every entry from the given socket
 	// in old_table If the prefix could not be removed it was added in
 	// new_table and the update cb must be called
+	// new_table is shared with the other sockets and with readers: walk its list under its read lock
+	pthread_rwlock_rdlock(&new_table->lock);
 	for (tommy_node *current_node = tommy_list_head(&new_table->list); current_node;
 	     current_node = current_node->next) {
 		struct key_entry *entry = (struct key_entry *)current_node->data;
@@ -340,9 +342,11 @@ void spki_table_notify_diff(struct spki_table *new_table, struct spki_table *old
 				spki_table_notify_clients(new_table, &record, true);
 		}
 	}
+	pthread_rwlock_unlock(&new_table->lock);
 
 	// Iterate old_table and call cb for every remianing entry from the
 	// given socket with added false because it is not present in new_table
+	pthread_rwlock_rdlock(&old_table->lock);
 	for (tommy_node *current_node = tommy_list_head(&old_table->list); current_node;
 	     current_node = current_node->next) {
 		struct key_entry *entry = (struct key_entry *)current_node->data;
@@ -354,6 +358,7 @@ void spki_table_notify_diff(struct spki_table *new_table, struct spki_table *old
 			spki_table_notify_clients(new_table, &record, false);
 		}
 	}
+	pthread_rwlock_unlock(&old_table->lock);
 
 	// Restore original state of old_tables update_fp
 	old_table->update_fp = old_table_fp;
